@@ -912,6 +912,16 @@ func (hash *SexpHash) ShortName() string {
 }
 
 func (hash *SexpHash) SexpString(ps *PrintState) string {
+	// a hash can (indirectly) contain itself; printing such a value
+	// must not recurse forever (a Go stack overflow kills the process).
+	if ps == nil {
+		ps = NewPrintState()
+	}
+	if ps.GetSeen(hash) {
+		return "{...}"
+	}
+	ps.SetSeen(hash, "hash being printed")
+	defer delete(ps.Seen, hash)
 	indInner := ""
 	indent := ps.GetIndent()
 	innerPs := ps.AddIndent(4) // generates a fresh new PrintState
